@@ -328,7 +328,8 @@ class C02(core.PropertyCheck):
     # ---- model (event walk only)
     def model_request(self, case):
         if case["kind"] != "walk":
-            return None
+            # no model run for projects; an (empty) request makes `compare` see the monitor's findings
+            return {"op": "c02.walk", "pages": []}
         pages = self.build_walk(case)
 
         def enc(node):
@@ -345,6 +346,10 @@ class C02(core.PropertyCheck):
 
     def compare(self, case, model, impl):
         if case["kind"] != "walk":
+            # the hypothesis of theorem handler_stack_discipline observed on the real handlers. Not a C02 violation by
+            # itself (nothing raised): a broken tie, after which the framework searches for an input that does raise.
+            if impl.get("bookkeeping"):
+                return f"handler bookkeeping unbalanced (hypothesis of handler_stack_discipline): {impl['bookkeeping'][0]}"
             return None
         if impl["exc"]:
             return f"event walk raised {impl['exc']}"
@@ -370,8 +375,7 @@ class C02(core.PropertyCheck):
             return f"postprocessing raised {impl['exc']} at {impl['where']} {msg}".strip()
         if impl["missing_pages"]:
             return f"pages not delivered: {impl['missing_pages']}"
-        if impl.get("bookkeeping"):
-            return f"handler bookkeeping unbalanced: {impl['bookkeeping'][0]}"
+
         return None
 
     def finding_key(self, case, impl, desc):
